@@ -195,7 +195,18 @@ def intersectPair (vr : Variant) (rf : Nat) (rec : Table → Nat → Nat → TRe
       | .tuple id1, .tuple id2 => meetTuple vr rec T never id1 id2
       | .part n1 fs1, .part n2 fs2 =>
         if vr.partialIntersectKeepsLeft then meetFallback rf T never a b
-        else meetPart rec T never n1 fs1 n2 fs2
+        else if vr.partialIntersectUnguarded then meetPart rec T never n1 fs1 n2 fs2
+        else
+          -- `contains_cycle(a) || contains_cycle(b)` (short-circuit; fix 7120dc6): a variant taken out of
+          -- its recursive union keeps the old answer
+          match containsCycle vr T a with
+          | none => none
+          | some true => meetFallback rf T never a b
+          | some false =>
+            match containsCycle vr T b with
+            | none => none
+            | some true => meetFallback rf T never a b
+            | some false => meetPart rec T never n1 fs1 n2 fs2
       | _, _ => meetFallback rf T never a b
     | _, _ => some (T, never)
 
